@@ -223,7 +223,7 @@ class Realisation:
         if self.wl == "uint64":
             m.weights = w.astype("uint64")
         elif self.wl == "intc":
-            buf = np.zeros(2 * nq + 4, dtype="intc")
+            buf = np.ones(2 * nq + 4, dtype="intc")      # padding 1: an int64 read never sees the value alone
             buf[:nq] = w
             m.weights = buf[:nq]
         elif self.wl == "strided":
